@@ -794,4 +794,121 @@ theorem symbolHandler_good {cm : Bool} {idVal : String} {pp sp : Path} {p s : T}
     simp only [hc] at h
     exact hmain (Or.inl (by rw [hc]; simp)) h
 
+theorem shallowDef_good {cm : Bool} {tbl : Tbl} {ig : List String} {pp sp : Path} {p s : T} {b : AstMap}
+    (hk : p.kind = "FunctionDef" ∨ p.kind = "ClassDef")
+    (hig : ∀ n, ig.contains n = true → structuralField n = true ∨ some n = some "name")
+    (h : shallowDef cm tbl ig pp p sp s = some b) : ShallowGood b cm pp p sp s := by
+  have hf : identField p.kind = some "name" := by
+    rcases hk with hk | hk <;> simp [identField, hk]
+  have hnn : p.kind ≠ "Name" := by rcases hk with hk | hk <;> rw [hk] <;> decide
+  have hne : p.kind ≠ "Expr" := by rcases hk with hk | hk <;> rw [hk] <;> decide
+  simp only [shallowDef] at h
+  cases hm : shallowMain cm ig pp p sp s with
+  | none => simp [hm] at h
+  | some m =>
+    obtain ⟨rfl, hb⟩ := shallowMain_some hm
+    obtain ⟨h1, h2, h3⟩ := shallowMainB_spec hig hb
+    simp only [hm] at h
+    split at h
+    · rename_i hcond
+      have common : ∀ b', b'.mappings = [(pp, sp)] → ConfInv b' → b'.conflicts = [] → b'.exps = [] →
+          nodeOk b' p s = true → ShallowGood b' cm pp p sp s := by
+        intro b' e1 e2 e3 e4 e5
+        refine ⟨e1, e2, e3, Or.inr h2, fun _ => e5, ?_, ?_⟩
+        · intro kv hkv; rw [e4] at hkv; cases hkv
+        · intro k hr _; exact absurd hr (role_not_exp_of_kind hnn hne k)
+      cases hc : nameClass (p.strAttr "name") with
+      | var =>
+        simp only [hc] at h
+        cases h
+        refine common _ rfl (confInv_addBind (confInv_pairMap _ _) _) (pairMap_addBind_conflicts _ _ _) rfl ?_
+        exact nodeOk_of_bind h1 hf hc (hasBind_addBind_self _ _)
+      | wild =>
+        simp only [hc] at h
+        cases h
+        exact common _ rfl (confInv_pairMap _ _) rfl rfl (nodeOk_of_wild h1 hf hc)
+      | exp =>
+        simp only [hc] at h
+        split at h
+        · rename_i hn; cases h
+          exact common _ rfl (confInv_pairMap _ _) rfl rfl (nodeOk_of_name h1 hf h3 hn)
+        · cases h
+      | plain =>
+        simp only [hc] at h
+        split at h
+        · rename_i hn; cases h
+          exact common _ rfl (confInv_pairMap _ _) rfl rfl (nodeOk_of_name h1 hf h3 hn)
+        · cases h
+    · cases h
+
+theorem shallowMatch_good {cm : Bool} {pp sp : Path} {p s : T} {b : AstMap}
+    (h : shallowMatch cm pp p sp s = some b) : ShallowGood b cm pp p sp s := by
+  simp only [shallowMatch] at h
+  have pairGood : ∀ (hm : p.kind = "Module" ∨ metasMatch cm p s = true) (hr : role p ≠ .concrete)
+      (hn : p.kind ≠ "Name"), ShallowGood (pairMap pp sp) cm pp p sp s := by
+    intro hm hr hn
+    refine ⟨rfl, confInv_pairMap _ _, rfl, hm, fun h' => absurd h' hr, ?_, fun k _ h' => absurd h' hn⟩
+    intro kv hkv; simp [pairMap] at hkv
+  split at h
+  · rename_i hk
+    split at h
+    · cases h
+      refine pairGood (Or.inl hk) ?_ (by rw [hk]; decide)
+      simp [role, hk]
+    · cases h
+  · split at h
+    · rename_i hk
+      exact symbolHandler_good (Or.inr (Or.inl ⟨hk, rfl⟩)) h
+    · split at h
+      · rename_i hk
+        split at h
+        · rename_i hc
+          simp only [Bool.and_eq_true, decide_eq_true_eq] at hc
+          split at h
+          · exact symbolHandler_good (Or.inr (Or.inr ⟨hk, rfl, hc.2⟩)) h
+          · exact shallowMain_good (nil_structural _) (fun k => Or.inr (by rw [hk]; decide)) h
+        · split at h
+          · rename_i hc
+            exact symbolHandler_good (Or.inr (Or.inr ⟨hk, rfl, hc⟩)) h
+          · exact shallowMain_good (nil_structural _) (fun k => Or.inr (by rw [hk]; decide)) h
+      · split at h
+        · rename_i hk
+          exact symbolHandler_good (Or.inl ⟨hk, rfl⟩) h
+        · rename_i hnn
+          split at h
+          · rename_i hk
+            simp only [Bool.or_eq_true, decide_eq_true_eq] at hk
+            split at h
+            · rename_i hm
+              cases h
+              refine pairGood (Or.inr hm) ?_ hnn
+              rcases hk with hk | hk
+              · simp [role, hk]
+              · simp only [role, hk]
+                simp only [show ("Expr" : String) ≠ "Pass" from by decide,
+                  show ("Expr" : String) ≠ "Name" from by decide,
+                  show ("Expr" : String) ≠ "arg" from by decide, if_false, if_true]
+                split
+                · split
+                  · split <;> simp
+                  · simp
+                · simp
+            · cases h
+          · split at h
+            · rename_i hk
+              refine shallowDef_good (Or.inl hk) ?_ h
+              intro n hn
+              simp only [List.contains_eq_mem, List.mem_cons, List.mem_nil_iff, or_false,
+                decide_eq_true_eq] at hn
+              rcases hn with hn | hn
+              · right; rw [hn]
+              · left; rw [hn]; rfl
+            · split at h
+              · rename_i hk
+                refine shallowDef_good (Or.inr hk) ?_ h
+                intro n hn
+                simp only [List.contains_eq_mem, List.mem_singleton, decide_eq_true_eq] at hn
+                right; rw [hn]
+              · exact shallowMain_good (nil_structural _) (fun k => Or.inr hnn) h
+
 end Pedal.Cait
